@@ -293,8 +293,8 @@ def run(ctx: Ctx) -> None:
             bad = [w for w in v if not w.kept]
             ctx.ob("R11.5", f"lexer:LexerTokenStream.get_doxygen_after|{cname} re-queued", not bad,
                    msg=f"the trailing scan can drop a {cname}", node=ga, mod=lex)
-    txt_ga = norm(ga)
-    ctx.ob("R11.5", "lexer:LexerTokenStream.get_doxygen_after|rest of the buffer re-queued", "new_tokbuf.extend(tokbuf)" in txt_ga and "self.tokbuf = new_tokbuf" in txt_ga,
+    from ..scanloop import kept_restored
+    ctx.ob("R11.5", "lexer:LexerTokenStream.get_doxygen_after|rest of the buffer re-queued", kept_restored(ga),
            msg="the trailing scan does not put the unscanned rest of the buffer back", node=ga, mod=lex, nontrivial=False)
 
     # a plain comment inside the line changes nothing: the scan goes on to the doc comment that follows on the same line
